@@ -181,6 +181,56 @@ def Control.posts (see : Str → Bind → Attrs → Except PyErr Seen) : Control
 def browserPost (see : Str → Bind → Attrs → Except PyErr Seen) (cs : List Control) : Except PyErr (List Pair) :=
   postsAll (Control.posts see) cs
 
+/-! ### submission through an activated submitter
+
+`browserPost` takes every control as successful and every submitter (`<button>`, `<input
+type=submit>`) as THE activated one.  A browser activates at most one: `browserSubmit act` is the
+submission in which the `act`-th submitter of the document (counting submitters only, from 0) was
+pressed — `none`: the form was submitted without one (Enter in a text field, `form.submit()`) —
+and every other submitter posts nothing. -/
+
+/-- does a browser read the rendered tag as a submitter? -/
+def Control.isSub (see : Str → Bind → Attrs → Except PyErr Seen) : Control → Except PyErr Bool
+  | .single tag b kw => do
+    let (attrs, _) ← see tag b kw
+    pure (isSubmitter tag attrs)
+  | .select .. => pure false
+
+/-- the number of submitters among the rendered controls, as a browser reads them -/
+def subCount (see : Str → Bind → Attrs → Except PyErr Seen) : List Control → Except PyErr Nat
+  | [] => pure 0
+  | c :: cs => do
+    let s ← c.isSub see
+    let n ← subCount see cs
+    pure ((if s then 1 else 0) + n)
+
+/-- the name/value pairs a browser submits when the `act`-th submitter was activated -/
+def browserSubmit (see : Str → Bind → Attrs → Except PyErr Seen) : Option Nat → List Control → Except PyErr (List Pair)
+  | _, [] => pure []
+  | act, c :: cs => do
+    let p ← c.posts see
+    let s ← c.isSub see
+    if s then
+      match act with
+      | some 0 => do
+        let ps ← browserSubmit see none cs
+        pure (p ++ ps)
+      | some (k + 1) => browserSubmit see (some k) cs
+      | none => browserSubmit see none cs
+    else do
+      let ps ← browserSubmit see act cs
+      pure (p ++ ps)
+
+/-- the same reading on the keyword arguments of the call (the transforms leave `type` alone) -/
+def kwSubmitter (tag : Str) (kw : Attrs) : Bool :=
+  let ty := (Dict.get? kw sType).bind Val.str?
+  if tag = "button".toList then !buttonNeverPosts (asciiLower (ty.getD "submit".toList))
+  else tag = sInput && asciiLower (ty.getD "text".toList) = "submit".toList
+
+def Control.kwSub : Control → Bool
+  | .single tag _ kw => kwSubmitter tag kw
+  | .select .. => false
+
 /-! ### the element's own flat pairs, as far as a form carries them -/
 
 mutual
@@ -227,8 +277,10 @@ def reservedKeys : List Str :=
 def extraOk (a : Attrs) : Bool :=
   decide (Dict.keys a).Nodup && (Dict.keys a).all (fun k => !reservedKeys.contains k && rstripUnderscore k == k)
 
-/-- a text-like `<input>` type: not checkbox/radio, not password/file/image (KF-C12-a), and read
-    the same way by the library (`str.lower`) and by a browser (ASCII case-insensitive) -/
+/-- a text-like `<input>` type: not checkbox/radio, not password (KF-C12-a), not one of the types
+    whose `value` a browser never posts (file, image, reset, button), and read the same way by the
+    library (`str.lower`) and by a browser (ASCII case-insensitive).  `submit` is text-like; it
+    counts as a submitter (`submitters`). -/
 def textLikeTy (ty : Option Str) : Bool :=
   match ty with
   | none => true
@@ -236,7 +288,7 @@ def textLikeTy (ty : Option Str) : Bool :=
     let k := kwLower s
     let a := asciiLower s
     !(k == "radio".toList || k == sCheckbox || k == "password".toList || k == "file".toList || k == "image".toList) &&
-    !(a == sCheckbox || a == "radio".toList)
+    !(a == sCheckbox || a == "radio".toList) && !inputNeverPosts a
 
 /-- a check type (`radio` / `checkbox` in any case), read the same way by library and browser -/
 def checkTy (ty : Str) : Bool :=
@@ -277,6 +329,60 @@ def fieldsOk (T : Tables) (pre : List (Option Str)) : List FormTree → Bool
 def slotsOk (T : Tables) (pre : List (Option Str)) (i : Nat) : List FormTree → Bool
   | [] => true
   | t :: ts => formOk T (pre ++ [some (slotName i)]) t && slotsOk T pre (i + 1) ts
+end
+
+/-- is this `<input type=…>` a submit button? -/
+def submitTy (ty : Option Str) : Bool :=
+  match ty with
+  | none => false
+  | some s => asciiLower s == "submit".toList
+
+mutual
+/-- the number of SUBMITTER controls the form renders bound data as: `<button>`s and
+    `<input type=submit>`s.  A browser posts a submitter only when it is the control that was
+    activated, and at most one is: `browserPost` lets every submitter post as the activated one,
+    so the form theorems are about forms with AT MOST ONE of them (`oneSubmitter`).  An element
+    rendered only as a button that is not the one pressed is simply not posted. -/
+def submitters : FormTree → Nat
+  | .text _ _ (.button) _ => 1
+  | .text _ _ (.input ty) _ => if submitTy ty then 1 else 0
+  | .text _ _ _ _ => 0
+  | .joined _ _ _ ty _ => if submitTy ty then 1 else 0
+  | .bool .. => 0
+  | .array .. => 0
+  | .dict _ fields => submittersL fields
+  | .list _ members => submittersL members
+def submittersL : List FormTree → Nat
+  | [] => 0
+  | t :: ts => submitters t + submittersL ts
+end
+
+/-- a form submission has at most one activated submitter -/
+def oneSubmitter (t : FormTree) : Bool := decide (submitters t ≤ 1)
+
+/-- is the leaf rendered as a submitter? -/
+def FormTree.isSubmitterLeaf : FormTree → Bool
+  | .text _ _ (.button) _ => true
+  | .text _ _ (.input ty) _ => submitTy ty
+  | .joined _ _ _ ty _ => submitTy ty
+  | _ => false
+
+mutual
+/-- the element's pairs a submission WITHOUT an activated submitter carries: `formPairs` minus the
+    leaves rendered as a `<button>` / `<input type=submit>` -/
+def quietPairs (pre : List (Option Str)) : FormTree → List Pair
+  | .dict n fields => quietFieldPairs (pre ++ [n]) fields
+  | .list n members => quietSlotPairs (pre ++ [n]) 0 members
+  | .text n u w ex => if (FormTree.text n u w ex).isSubmitterLeaf then [] else formPairs pre (.text n u w ex)
+  | .joined n u ms ty ex => if submitTy ty then [] else formPairs pre (.joined n u ms ty ex)
+  | .bool n tru u ex => formPairs pre (.bool n tru u ex)
+  | .array n strip ms w ex => formPairs pre (.array n strip ms w ex)
+def quietFieldPairs (pre : List (Option Str)) : List FormTree → List Pair
+  | [] => []
+  | t :: ts => quietPairs pre t ++ quietFieldPairs pre ts
+def quietSlotPairs (pre : List (Option Str)) (i : Nat) : List FormTree → List Pair
+  | [] => []
+  | t :: ts => quietPairs (pre ++ [some (slotName i)]) t ++ quietSlotPairs pre (i + 1) ts
 end
 
 mutual
